@@ -655,6 +655,12 @@ class DynamicBayesianNetwork(DAG):
                 if all(x[1] == parents[0][1] for x in parents):
                     if parents:
                         evidence_card = cpd.cardinality[1:]
+                        # Keep the parent order of the copied CPD so that every column keeps its meaning.
+                        shifted = [
+                            DynamicNode(p[0], parents[0][1]) for p in cpd.variables[1:]
+                        ]
+                        if set(shifted) == set(parents):
+                            parents = shifted
                         new_cpd = TabularCPD(
                             temp_var,
                             cpd.variable_card,
